@@ -733,7 +733,7 @@ func gen(r *vh.Rand) string {
 		return genIs(r)
 	case 5:
 		// real listener + several RSA handshakes per history (about 75 ms): few in the quick tier
-		if vh.Thorough || r.Chance(1, 2) {
+		if vh.Thorough || r.Chance(1, 4) {
 			return genKr(r)
 		}
 	case 6, 7:
@@ -749,4 +749,26 @@ func gen(r *vh.Rand) string {
 	}
 }
 
-func main() { vh.Main(gen, exec) }
+// Pre: a deterministic set (independent of VERIF_SEED) of the expensive streams — key rotation through the real listener,
+// issue-side handshakes, the redis-backed cache, re-verification of stored certificates, resumption under another SNI.
+func pre(emit func(op string), thorough bool) {
+	r := vh.NewRand(4444)
+	n := 1
+	if thorough {
+		n = 20
+	}
+	for i := 0; i < 8*n; i++ {
+		emit(genKr(r))
+		emit(genSc(r))
+	}
+	for i := 0; i < 20*n; i++ {
+		emit(genIs(r))
+		emit(genRv(r))
+		emit(genRs(r))
+	}
+}
+
+func main() {
+	vh.Pre = pre
+	vh.Main(gen, exec)
+}
